@@ -93,6 +93,19 @@ def run(rep, idx, tier):
     same = m1 == m2 and muxv is not None and muxv[2] and muxv[2][0] == m1
     rep.check(same, "C14.2", cs, "both registers go into the map handed to the multiplexer",
               f"maps: {ir.show(m1)[:60]} / {ir.show(m2)[:60]}; multiplexer gets {ir.show(muxv[2][0])[:60] if muxv and muxv[2] else None}")
+    # the pending register sits right after enable, so for 3, 5, 6, 7 ... words it is not naturally aligned and shares shadow chunks
+    # with enable: the multiplexer must be allowed that overlap (default: as many overlaps as registers; an explicit limit >= 1)
+    if muxv is not None and muxv[0] == 'call':
+        so = kwarg(muxv, 'shadow_overlaps', 1)
+        if so is None or so == ('const', None):
+            rep.ok("C14.2", cs, "the multiplexer may share shadow chunks between enable and pending", "default shadow_overlaps")
+        elif so[0] == 'const' and isinstance(so[1], int) and not isinstance(so[1], bool):
+            rep.check(so[1] >= 1, "C14.2", cs, "the multiplexer may share shadow chunks between enable and pending",
+                      f"shadow_overlaps={so[1]}: pending follows enable directly, so when the masks span a number of bus words that is not a "
+                      "power of two the two registers share a chunk; with no overlap allowed the shadow cannot be balanced and "
+                      "elaborate() raises for those event counts")
+        else:
+            rep.unk("C14.2", cs, "the multiplexer may share shadow chunks between enable and pending", f"shadow_overlaps={ir.show(so)[:60]}")
     if m1[0] == 'call':
         aw = kwarg(m1, 'addr_width')
         want = ctor.parse("1 + max(ceil_log2(S), alignment)", {"S": want_size})
